@@ -35,11 +35,13 @@ CHECKS = {
           "source, for the C05 families, the shipped .S files and xcmp -S of tests/x.",
   "note": "Pure trace validation (states/transitions are nominal). The final 'N bytes' line is not judged (the property does not mention it)."},
  "C01": {"level": "model_checking", "design_ref": "DESIGN.md 2.4, 5 (C01), Appendix C",
-  "technique": "XLang.tla (X definition as a small-step machine) executed by TLC on each generated program and, through XSyntax/XFold/XText, on source text; compiled binaries' observable behaviour validated against it; XFrames model checking",
+  "technique": "XLang.tla (X definition as a small-step machine) executed by TLC on each generated program and, through XSyntax/XFold/XText, on source text; compiled binaries' observable behaviour validated against it; XFrames and XCodeGenMC model checking (the specified code generator run on a label-level Hex machine computes XLang's result), XCodeGenV binding of the generator to xcmp --insts / --insts-lowered",
   "text": "The oracle is a specification that is total over the property's domain: XLang decides definedness and the behaviour (writes per "
           "channel, input consumed, exit value); xcmp+hexsim must reproduce it for the operator x leaf-kind x context enumeration, structural "
           "templates, seeded random programs, source texts (repository programs and token-level variations, parsed and translated inside the "
-          "specification) and programs named after every identifier-shaped label the compiler generates. Undefined programs are counted, never judged.",
+          "specification) and programs named after every identifier-shaped label the compiler generates. Undefined programs are counted, never judged. "
+          "The code generator itself is specified (XCodeGen): TLC shows, one state per (tree, valuation, placement), that its directive lists compute XLang's "
+          "value inside the memory with a balanced stack, and every run compares xcmp's --insts / --insts-lowered output with the specified lists line for line (drift grade).",
   "note": "Trusts the reading of xhexnotes.pdf in XLang.tla (DESIGN Appendix C) and the AST printer; bounded program size, fuel and depth."},
  "C07": {"level": "model_checking", "design_ref": "DESIGN.md 5 (C07)",
   "technique": "TLC theorems FoldSound / OptSound (XFoldMC: compile-time arithmetic and rewritings agree with XLang) + placement families (constant vs run-time operands) compiled and compared; XLang machine mode run by TLC defines domain and reference value",
